@@ -1,5 +1,6 @@
 import ArgoVerif.Proofs.Mutex2
 import ArgoVerif.Gen.Consts
+import ArgoVerif.Proofs.FutexGen
 /-
 Props.C04 — ABT_mutex: mutual exclusion, recursion, trylock, no lost wake-up.
 All theorems quantify over every trace accepted by the mutex model, i.e. over every
@@ -160,5 +161,33 @@ example :
 example : ArgoVerif.Gen.Consts.bytesMutexNestingCnt = 4 := by decide
 /-- the generation word of the wait-list futex is 4 bytes wide in this tree: the unbounded model agrees with the C field below 2^31 -/
 example : ArgoVerif.Gen.Consts.bytesFutexVal = 4 := by decide
+
+
+/-! ## the generation word of the wait-list futex (non-yieldable waiters: external threads, tasklets) -/
+/-- the width of the word, generated from the header on every run -/
+def futexBits : Nat := (8 * ArgoVerif.Gen.Consts.bytesFutexVal).toNat
+
+/-- **no lost wake-up of a sleeping caller**: a waiter that sampled the word under the wait-list lock and is then delayed
+for `k` broadcasts (any `0 < k < 2^bits`) before the kernel compares the word — or before it re-reads the word after a
+wake-up — finds it changed: it does not go (back) to sleep after the broadcast that took it off the wait list -/
+theorem futex_no_lost_wake (v k : Nat) (hv : v < 2 ^ futexBits) (hk : 0 < k) (hk2 : k < 2 ^ futexBits) :
+    ArgoVerif.Model.FutexGen.lostWake futexBits v k = false := by
+  cases h : ArgoVerif.Model.FutexGen.lostWake futexBits v k with
+  | false => rfl
+  | true => have := (ArgoVerif.Model.FutexGen.lostWake_iff futexBits v k hv hk2).1 h; omega
+
+/-- (`lostWake` compares the sample with the word after `k` single broadcasts `val := val + 1` on that width) -/
+theorem futex_after_is_k_broadcasts (v k : Nat) (hv : v < 2 ^ futexBits) :
+    ArgoVerif.Model.FutexGen.after futexBits v k = ArgoVerif.Model.FutexGen.iter futexBits v k :=
+  ArgoVerif.Model.FutexGen.after_eq_iter futexBits v k hv
+
+/-- ... and it sleeps when nothing has been broadcast since its sample (it is still on the wait list) -/
+theorem futex_sleeps_without_broadcast (v : Nat) (hv : v < 2 ^ futexBits) :
+    ArgoVerif.Model.FutexGen.lostWake futexBits v 0 = true :=
+  (ArgoVerif.Model.FutexGen.lostWake_iff futexBits v 0 hv (Nat.two_pow_pos _)).2 rfl
+
+/-- non-vacuity / why the width matters: on a 3-bit word the 8th broadcast restores the sampled value -/
+example : ArgoVerif.Model.FutexGen.lostWake 3 5 8 = true ∧ ArgoVerif.Model.FutexGen.lostWake 3 5 7 = false := by decide
+example : futexBits = 32 := by decide
 
 end ArgoVerif.Props.C04
